@@ -1,6 +1,1030 @@
-//! C42 — not implemented yet.
-use mc_core::Ctx;
+//! C42 — validator staking and emissions never create value.
+//!
+//! Explicit-state exploration of histories of validator operations (stake by delegator / by owner,
+//! unstake, claim, register / unregister, fee changes, delegation flag, owner stake-unit locking, round
+//! changes with missed-proposal patterns = epoch changes) on the real engine, from a custom genesis:
+//! 13 validators (3 actors around 300k XRD + 10 fillers in the lowest 100k-XRD index bucket), active set
+//! size 2 (so selection matters and the sorted stake index is really consulted: it is read for
+//! 2 + 2/10 + 10 = 12 < 13 entries), 1 round per epoch, unstake delay 2 epochs, emission E per epoch,
+//! minimal reliability 0.4 (so that missed proposals give fractional reliability factors).
+//! The root of the exploration is the state after a fixed prefix [unstake 1000 units of V0, epoch change],
+//! so that stake : unit ratios are not 1 and a claim NFT is about to mature.
+//!
+//! Exact BigInt / rational oracle, per transition:
+//! * stake: units minted ≤ a · supply / stake (exactly a when the validator is empty), XRD moves 1:1 into
+//!   the stake vault; then, on a fork, the new units are unstaked at once: claim amount ≤ a;
+//! * unstake: the claim NFT's amount ≤ units · stake / supply, stake vault → pending vault exactly;
+//! * claim: pays ≤ the NFT's amount and ≤ the exact share fixed at unstake time;
+//! * epoch change: XRD minted (Σ XRD mint events, cross-checked against the stake vaults) ≤ E; Σ reward events ≤ rewards vault
+//!   before, vault shrinks by exactly that; Σ stake vault increases = minted + rewards paid (nothing
+//!   else appears); units minted for the owner ≤ proportional; the active set in `EpochChangeEvent`
+//!   = top-2 by exact stake among registered ∧ stake > 0, non-increasing, every member's listed stake
+//!   = its real stake;
+//! * always: account XRD + Σ stake vaults + Σ pending vaults is conserved by user transactions; stake-unit
+//!   supply = units held + locked + unlocking; pending vault = Σ outstanding claim amounts.
+use crate::rat::*;
+use mc_core::{bfs, BfsStats, Ctx, Level, Machine};
+use mc_ledger::*;
+use num_bigint::BigInt;
+use num_traits::{Signed, Zero};
+use radix_engine::blueprints::consensus_manager::*;
+use radix_engine::blueprints::resource::{FungibleResourceManagerField, FungibleResourceManagerTotalSupplyFieldPayload, MintFungibleResourceEvent};
+use radix_engine::system::bootstrap::*;
+use radix_engine::system::system_db_reader::SystemDatabaseReader;
+use serde_json::json;
+use std::cell::Cell;
+use std::collections::BTreeMap;
+use std::str::FromStr;
+use std::sync::atomic::{AtomicU64, Ordering};
+use std::sync::Mutex;
 
-pub fn run(_ctx: Ctx) -> ! {
-    mc_core::machinery_error("C42: not implemented")
+pub const N_ACTORS: usize = 3;
+pub const N_FILLERS: usize = 10;
+pub const MAX_VALIDATORS: u32 = 2;
+pub const UNSTAKE_DELAY: u64 = 2;
+const EMISSION: &str = "999.999999999999999989";
+/// entries the engine reads from the sorted stake index: max + max/10 + 10
+const INDEX_READ: usize = (MAX_VALIDATORS + MAX_VALIDATORS / 10 + 10) as usize;
+
+#[derive(Clone, Copy, Debug, PartialEq, Eq)]
+pub enum Units {
+    /// 1 atto of stake units
+    Smallest,
+    /// ⌊units held / 2⌋
+    Half,
+    All,
+    /// prefix only
+    Thousand,
+}
+
+#[derive(Clone, Copy, Debug, PartialEq, Eq)]
+pub enum Miss {
+    None,
+    /// the validator at this index of the active set misses one round (a gap round), then index 0 proposes
+    Index(u8),
+}
+
+#[derive(Clone, Debug, PartialEq)]
+pub enum Op {
+    Stake(usize, Decimal),
+    StakeAsOwner(usize, Decimal),
+    Unstake(usize, Units),
+    /// claim the claim-NFT of this validator that matures first
+    Claim(usize),
+    Register(usize),
+    Unregister(usize),
+    UpdateFee(usize, Decimal),
+    AcceptDelegated(usize, bool),
+    LockOwnerUnits(usize, Decimal),
+    StartUnlock(usize, Decimal),
+    FinishUnlock(usize),
+    /// next round (1 round per epoch ⇒ epoch change)
+    Round(Miss),
+}
+
+#[derive(Clone, Debug, PartialEq, Eq)]
+pub struct VObs {
+    pub registered_flag: bool,
+    pub accepts: bool,
+    pub fee: String,
+    pub fee_req: Option<(u64, String)>,
+    pub k: BigInt,
+    pub s: BigInt,
+    pub p: BigInt,
+    pub l: BigInt,
+    pub u: BigInt,
+    pub pending_unlock: Vec<(u64, String)>,
+    pub already_unlocked: String,
+    pub acct_units: BigInt,
+    /// (claim epoch, amount, id) sorted
+    pub nfts: Vec<(u64, BigInt, NonFungibleLocalId)>,
+}
+
+#[derive(Clone, Debug, PartialEq, Eq)]
+pub struct Obs {
+    pub epoch: u64,
+    pub round: u64,
+    pub v: Vec<VObs>,
+    /// stake vault of all 13 validators (actors first)
+    pub k_all: Vec<BigInt>,
+    pub acct_xrd: BigInt,
+    /// (index into `all`, listed stake)
+    pub active: Vec<(usize, BigInt)>,
+    // not part of the fingerprint / unchanged-comparison (fee dependent):
+    pub rv: BigInt,
+}
+
+impl Obs {
+    fn value_total(&self) -> BigInt {
+        let mut t = self.acct_xrd.clone();
+        for k in &self.k_all {
+            t += k;
+        }
+        for v in &self.v {
+            t += &v.p;
+        }
+        t
+    }
+    fn same_but_fees(&self, o: &Obs) -> bool {
+        self.epoch == o.epoch && self.round == o.round && self.v == o.v && self.k_all == o.k_all && self.acct_xrd == o.acct_xrd && self.active == o.active
+    }
+}
+
+#[derive(Clone, Debug)]
+pub struct Model {
+    /// registration as the owner's successful register / unregister calls say (genesis: all registered)
+    pub registered: Vec<bool>,
+    /// per claim NFT: the exact share units·stake/supply at unstake time
+    pub nft_bound: BTreeMap<NonFungibleLocalId, Rat>,
+    pub rounds: usize,
+}
+
+pub struct St {
+    pub sim: Sim,
+    pub obs: Obs,
+    pub model: Model,
+    pub live: Cell<bool>,
+}
+
+pub struct World {
+    pub acct: Acct,
+    pub all: Vec<ComponentAddress>,
+    pub unit_res: Vec<ResourceAddress>,
+    pub claim_res: Vec<ResourceAddress>,
+    pub emission: BigInt,
+}
+
+pub struct StakeMachine {
+    pub root: Snap,
+    pub root_model: Model,
+    pub w: World,
+    pub alphabet: Vec<Op>,
+    pub max_rounds: usize,
+    pub infos: Mutex<BTreeMap<String, u64>>,
+    pub probes: AtomicU64,
+}
+
+type V = (String, String);
+
+fn sim_from(snap: &Snap) -> Sim {
+    LedgerSimulatorBuilder::new().without_kernel_trace().build_from_snapshot(snap.clone())
+}
+
+fn dec_from_attos(a: &BigInt) -> Decimal {
+    Decimal::from_str(&show(a)).expect("attos render as a decimal")
+}
+
+fn d(s: &str) -> Decimal {
+    Decimal::from_str(s).unwrap()
+}
+
+fn mb() -> ManifestBuilder {
+    ManifestBuilder::new().lock_fee_from_faucet()
+}
+
+fn supply_of(sim: &Sim, r: ResourceAddress) -> BigInt {
+    let reader = SystemDatabaseReader::new(sim.substate_db());
+    let p = reader
+        .read_typed_object_field::<FungibleResourceManagerTotalSupplyFieldPayload>(r.as_node_id(), ModuleId::Main, FungibleResourceManagerField::TotalSupply.field_index())
+        .expect("total supply is tracked");
+    attos(p.fully_update_and_into_latest_version())
+}
+
+fn vault(sim: &mut Sim, own: &Own) -> BigInt {
+    attos(sim.inspect_vault_balance(own.0).expect("vault exists"))
+}
+
+/// 100k-XRD bucket of the sorted index (what the engine's 2-byte sort prefix encodes), computed on integers
+fn bucket(stake: &BigInt) -> BigInt {
+    let b = stake / (pow10(18) * BigInt::from(100_000));
+    if b > BigInt::from(u16::MAX) {
+        BigInt::from(u16::MAX)
+    } else {
+        b
+    }
+}
+
+pub fn observe(sim: &mut Sim, w: &World) -> Obs {
+    let cm = sim.get_consensus_manager_state();
+    let mut v = vec![];
+    let mut k_all = vec![];
+    for (i, addr) in w.all.iter().enumerate() {
+        let sub = sim.get_validator_info(*addr);
+        let k = vault(sim, &sub.stake_xrd_vault_id);
+        k_all.push(k.clone());
+        if i >= N_ACTORS {
+            continue;
+        }
+        let mut nfts = vec![];
+        for vid in sim.get_component_vaults(w.acct.addr, sub.claim_nft) {
+            let ids: Vec<NonFungibleLocalId> = sim.inspect_non_fungible_vault(vid).map(|(_, it)| it.collect()).unwrap_or_default();
+            for id in ids {
+                let data: UnstakeData = sim.get_non_fungible_data(sub.claim_nft, id.clone());
+                nfts.push((data.claim_epoch.number(), attos(data.claim_amount), id));
+            }
+        }
+        nfts.sort();
+        v.push(VObs {
+            registered_flag: sub.is_registered,
+            accepts: sub.accepts_delegated_stake,
+            fee: sub.validator_fee_factor.to_string(),
+            fee_req: sub.validator_fee_change_request.as_ref().map(|r| (r.epoch_effective.number(), r.new_fee_factor.to_string())),
+            k,
+            s: supply_of(sim, sub.stake_unit_resource),
+            p: vault(sim, &sub.pending_xrd_withdraw_vault_id),
+            l: vault(sim, &sub.locked_owner_stake_unit_vault_id),
+            u: vault(sim, &sub.pending_owner_stake_unit_unlock_vault_id),
+            pending_unlock: sub.pending_owner_stake_unit_withdrawals.iter().map(|(e, a)| (e.number(), a.to_string())).collect(),
+            already_unlocked: sub.already_unlocked_owner_stake_unit_amount.to_string(),
+            acct_units: attos(sim.get_component_balance(w.acct.addr, sub.stake_unit_resource)),
+            nfts,
+        });
+    }
+    let reader = SystemDatabaseReader::new(sim.substate_db());
+    let set = reader
+        .read_typed_object_field::<ConsensusManagerCurrentValidatorSetFieldPayload>(CONSENSUS_MANAGER.as_node_id(), ModuleId::Main, ConsensusManagerField::CurrentValidatorSet.field_index())
+        .expect("validator set")
+        .fully_update_and_into_latest_version();
+    let active = set
+        .validator_set
+        .validators_by_stake_desc
+        .iter()
+        .map(|(a, val)| (w.all.iter().position(|x| x == a).unwrap_or(usize::MAX), attos(val.stake)))
+        .collect();
+    let rewards = reader
+        .read_typed_object_field::<ConsensusManagerValidatorRewardsFieldPayload>(CONSENSUS_MANAGER.as_node_id(), ModuleId::Main, ConsensusManagerField::ValidatorRewards.field_index())
+        .expect("rewards")
+        .fully_update_and_into_latest_version();
+    let rv_id = rewards.rewards_vault.0;
+    drop(reader);
+    Obs {
+        epoch: cm.epoch.number(),
+        round: cm.round.number(),
+        v,
+        k_all,
+        acct_xrd: attos(sim.get_component_balance(w.acct.addr, XRD)),
+        active,
+        rv: vault(sim, &rv_id),
+    }
+}
+
+fn short_class(r: &TransactionReceipt) -> String {
+    let c = receipt_class(r);
+    if let Some(rest) = c.strip_prefix("commit-failure:") {
+        let last = rest.rsplit('(').next().unwrap_or(rest);
+        format!("fail:{last}")
+    } else {
+        c
+    }
+}
+
+impl StakeMachine {
+    fn info(&self, k: &str) {
+        *self.infos.lock().unwrap().entry(k.to_string()).or_insert(0) += 1;
+    }
+
+    fn badge(&self, v: usize) -> NonFungibleLocalId {
+        NonFungibleLocalId::bytes(self.w.all[v].as_node_id().0).unwrap()
+    }
+
+    fn owner(&self, v: usize) -> ManifestBuilder {
+        mb().create_proof_from_account_of_non_fungibles(self.w.acct.addr, VALIDATOR_OWNER_BADGE, [self.badge(v)])
+    }
+
+    fn unstake_manifest(&self, v: usize, units: &BigInt) -> TransactionManifestV1 {
+        mb().withdraw_from_account(self.w.acct.addr, self.w.unit_res[v], dec_from_attos(units))
+            .take_all_from_worktop(self.w.unit_res[v], "u")
+            .unstake_validator(self.w.all[v], "u")
+            .try_deposit_entire_worktop_or_abort(self.w.acct.addr, None)
+            .build()
+    }
+
+    /// `Ok(None)`: nothing to execute in this state (counts as a refused operation)
+    fn manifest(&self, pre: &Obs, op: &Op) -> Option<TransactionManifestV1> {
+        let a = self.w.acct.addr;
+        let all = &self.w.all;
+        Some(match op {
+            Op::Stake(v, x) => mb().withdraw_from_account(a, XRD, *x).take_all_from_worktop(XRD, "s").stake_validator(all[*v], "s").try_deposit_entire_worktop_or_abort(a, None).build(),
+            Op::StakeAsOwner(v, x) => self
+                .owner(*v)
+                .withdraw_from_account(a, XRD, *x)
+                .take_all_from_worktop(XRD, "s")
+                .stake_validator_as_owner(all[*v], "s")
+                .try_deposit_entire_worktop_or_abort(a, None)
+                .build(),
+            Op::Unstake(v, u) => {
+                let units = match u {
+                    Units::Smallest => BigInt::from(1),
+                    Units::Half => &pre.v[*v].acct_units / BigInt::from(2),
+                    Units::All => pre.v[*v].acct_units.clone(),
+                    Units::Thousand => pow10(21),
+                };
+                self.unstake_manifest(*v, &units)
+            }
+            Op::Claim(v) => {
+                let (_, _, id) = pre.v[*v].nfts.first()?;
+                mb().withdraw_non_fungibles_from_account(a, self.w.claim_res[*v], [id.clone()])
+                    .take_all_from_worktop(self.w.claim_res[*v], "n")
+                    .claim_xrd(all[*v], "n")
+                    .try_deposit_entire_worktop_or_abort(a, None)
+                    .build()
+            }
+            Op::Register(v) => self.owner(*v).register_validator(all[*v]).build(),
+            Op::Unregister(v) => self.owner(*v).unregister_validator(all[*v]).build(),
+            Op::UpdateFee(v, f) => self.owner(*v).call_method(all[*v], VALIDATOR_UPDATE_FEE_IDENT, (*f,)).build(),
+            Op::AcceptDelegated(v, b) => self.owner(*v).call_method(all[*v], VALIDATOR_UPDATE_ACCEPT_DELEGATED_STAKE_IDENT, (*b,)).build(),
+            Op::LockOwnerUnits(v, x) => self
+                .owner(*v)
+                .withdraw_from_account(a, self.w.unit_res[*v], *x)
+                .take_all_from_worktop(self.w.unit_res[*v], "u")
+                .call_method_with_name_lookup(all[*v], VALIDATOR_LOCK_OWNER_STAKE_UNITS_IDENT, |l| (l.bucket("u"),))
+                .build(),
+            Op::StartUnlock(v, x) => self.owner(*v).call_method(all[*v], VALIDATOR_START_UNLOCK_OWNER_STAKE_UNITS_IDENT, (*x,)).build(),
+            Op::FinishUnlock(v) => self.owner(*v).call_method(all[*v], VALIDATOR_FINISH_UNLOCK_OWNER_STAKE_UNITS_IDENT, ()).try_deposit_entire_worktop_or_abort(a, None).build(),
+            Op::Round(_) => unreachable!(),
+        })
+    }
+
+    fn what(&self, pre: &Obs, op: &Op) -> String {
+        let v: Vec<String> = pre.v.iter().enumerate().map(|(i, x)| format!("V{i}{{stake {} units {} pending {} registered {}}}", show(&x.k), show(&x.s), show(&x.p), x.registered_flag)).collect();
+        format!("epoch {} {} op {:?}", pre.epoch, v.join(" "), op)
+    }
+
+    /// invariants of every state
+    fn state_invariants(&self, o: &Obs, what: &str) -> Result<(), V> {
+        for (i, v) in o.v.iter().enumerate() {
+            let held = &v.acct_units + &v.l + &v.u;
+            if v.s != held {
+                return Err((
+                    "units-supply-ne-holdings".into(),
+                    format!("{what}: V{i} stake unit supply {} but account + locked + unlocking hold {}", show(&v.s), show(&held)),
+                ));
+            }
+            let owed: BigInt = v.nfts.iter().map(|n| n.1.clone()).sum();
+            if v.p != owed {
+                return Err(("pending-vault-ne-claims".into(), format!("{what}: V{i} pending-withdraw vault {} but outstanding claim NFTs add up to {}", show(&v.p), show(&owed))));
+            }
+            if v.k.is_negative() || v.s.is_negative() || v.p.is_negative() {
+                return Err(("negative-balance".into(), format!("{what}: V{i} negative stake/supply/pending")));
+            }
+        }
+        Ok(())
+    }
+
+    fn others_unchanged(&self, pre: &Obs, post: &Obs, except: Option<usize>, what: &str) -> Result<(), V> {
+        for i in 0..pre.k_all.len() {
+            if Some(i) == except {
+                continue;
+            }
+            if pre.k_all[i] != post.k_all[i] || (i < N_ACTORS && (pre.v[i].s != post.v[i].s || pre.v[i].p != post.v[i].p)) {
+                return Err(("bystander-changed".into(), format!("{what}: validator {i} was not addressed but its stake/units/pending changed")));
+            }
+        }
+        Ok(())
+    }
+
+    fn step_user(&self, st: &mut St, op: &Op) -> Result<String, V> {
+        let pre = st.obs.clone();
+        let what = self.what(&pre, op);
+        let name = format!("{op:?}");
+        let name = name.split('(').next().unwrap_or("").to_string();
+        let Some(manifest) = self.manifest(&pre, op) else {
+            return Ok(format!("{name}:nothing-to-do"));
+        };
+        let receipt = exec(&mut st.sim, manifest, vec![self.w.acct.sig.clone()]).map_err(|p| (format!("panic@{}", mc_core::last_panic_location()), format!("{what}: engine panicked: {p}")))?;
+        let post = observe(&mut st.sim, &self.w);
+        st.obs = post.clone();
+        if !is_success(&receipt) {
+            if !pre.same_but_fees(&post) {
+                return Err(("failed-op-changed-state".into(), format!("{what}: the transaction did not succeed but validator/account state moved")));
+            }
+            return Ok(format!("{name}:{}", short_class(&receipt)));
+        }
+        // user transactions never create or destroy XRD on the user/validator side (fees are the faucet's)
+        if pre.value_total() != post.value_total() {
+            return Err((
+                "value-not-conserved".into(),
+                format!(
+                    "{what}: account XRD + Σ stake vaults + Σ pending vaults moved from {} to {}",
+                    show(&pre.value_total()),
+                    show(&post.value_total())
+                ),
+            ));
+        }
+        if post.epoch != pre.epoch || post.active != pre.active {
+            return Err(("user-tx-changed-epoch-or-set".into(), format!("{what}: a user transaction changed the epoch or the active set")));
+        }
+        self.state_invariants(&post, &what)?;
+        match op {
+            Op::Stake(v, x) | Op::StakeAsOwner(v, x) => {
+                let v = *v;
+                let a = attos(*x);
+                self.others_unchanged(&pre, &post, Some(v), &what)?;
+                let (pv, qv) = (&pre.v[v], &post.v[v]);
+                let minted = &qv.s - &pv.s;
+                let got = &qv.acct_units - &pv.acct_units;
+                if &qv.k - &pv.k != a || &pre.acct_xrd - &post.acct_xrd != a || qv.p != pv.p {
+                    return Err(("stake-xrd-flow".into(), format!("{what}: staked {} but stake vault moved by {} and the account by {}", show(&a), show(&(&qv.k - &pv.k)), show(&(&post.acct_xrd - &pre.acct_xrd)))));
+                }
+                if minted != got || minted.is_negative() {
+                    return Err(("stake-units-flow".into(), format!("{what}: supply grew by {} but the staker received {}", show(&minted), show(&got))));
+                }
+                let mut label = "proportional";
+                if pv.k.is_zero() {
+                    if pv.s.is_zero() {
+                        label = "first-stake";
+                        if minted != a {
+                            return Err(("first-stake-not-1:1".into(), format!("{what}: first stake of {} minted {} units", show(&a), show(&minted))));
+                        }
+                    } else {
+                        label = "empty-stake-with-units";
+                        if st.live.get() {
+                            self.info("stake into a validator with units but no stake (statement silent)");
+                        }
+                    }
+                } else {
+                    // minted ≤ a · supply / stake   ⇔   minted · stake ≤ a · supply
+                    if &minted * &pv.k > &a * &pv.s {
+                        return Err((
+                            "stake-mints-more-than-proportional".into(),
+                            format!(
+                                "{what}: staking {} minted {} units; proportional amount is {}",
+                                show(&a),
+                                show(&minted),
+                                Rat::new(&a * &pv.s, pv.k.clone()).show()
+                            ),
+                        ));
+                    }
+                    if pv.s.is_zero() {
+                        label = "stake-without-units-in-circulation";
+                        if st.live.get() {
+                            self.info("stake into a validator holding stake but no units in circulation: 0 units minted for the staked XRD (proportional to supply 0; staker loses, no value created)");
+                        }
+                    } else if minted.is_zero() {
+                        label = "rounds-to-zero-units";
+                    }
+                }
+                // stake, then immediately unstake the new units (on a fork): never more XRD than staked
+                if st.live.get() && minted.is_positive() {
+                    self.probes.fetch_add(1, Ordering::Relaxed);
+                    let mut f = sim_from(&st.sim.create_snapshot());
+                    let r2 = exec(&mut f, self.unstake_manifest(v, &minted), vec![self.w.acct.sig.clone()])
+                        .map_err(|p| (format!("panic@{}", mc_core::last_panic_location()), format!("{what}; then unstake of the new units: engine panicked: {p}")))?;
+                    if is_success(&r2) {
+                        let back = observe(&mut f, &self.w);
+                        let old: Vec<&NonFungibleLocalId> = qv.nfts.iter().map(|n| &n.2).collect();
+                        let new: Vec<&(u64, BigInt, NonFungibleLocalId)> = back.v[v].nfts.iter().filter(|n| !old.contains(&&n.2)).collect();
+                        let claim: BigInt = new.iter().map(|n| n.1.clone()).sum();
+                        if claim > a {
+                            return Err((
+                                "stake-unstake-gain".into(),
+                                format!("{what}: staked {} for {} units; unstaking exactly these units immediately gives a claim of {} XRD", show(&a), show(&minted), show(&claim)),
+                            ));
+                        }
+                        return Ok(format!("{name}:ok:{label}:unstake-at-once-claims-at-most-staked"));
+                    }
+                    return Ok(format!("{name}:ok:{label}:unstake-at-once-refused"));
+                }
+                Ok(format!("{name}:ok:{label}"))
+            }
+            Op::Unstake(v, _) => {
+                let v = *v;
+                self.others_unchanged(&pre, &post, Some(v), &what)?;
+                let (pv, qv) = (&pre.v[v], &post.v[v]);
+                let burned = &pv.s - &qv.s;
+                if burned != &pv.acct_units - &qv.acct_units || burned.is_negative() {
+                    return Err(("unstake-units-flow".into(), format!("{what}: supply shrank by {} but the account handed in {}", show(&burned), show(&(&pv.acct_units - &qv.acct_units)))));
+                }
+                let old: Vec<&NonFungibleLocalId> = pv.nfts.iter().map(|n| &n.2).collect();
+                let new: Vec<&(u64, BigInt, NonFungibleLocalId)> = qv.nfts.iter().filter(|n| !old.contains(&&n.2)).collect();
+                if new.len() != 1 {
+                    return Err(("unstake-claim-nft-count".into(), format!("{what}: unstake produced {} claim NFTs", new.len())));
+                }
+                let (claim_epoch, claim, id) = new[0];
+                if &pv.k - &qv.k != *claim || &qv.p - &pv.p != *claim || post.acct_xrd != pre.acct_xrd {
+                    return Err((
+                        "unstake-xrd-flow".into(),
+                        format!("{what}: claim amount {} but stake vault moved by {} and pending vault by {}", show(claim), show(&(&qv.k - &pv.k)), show(&(&qv.p - &pv.p))),
+                    ));
+                }
+                // claim ≤ units · stake / supply  ⇔  claim · supply ≤ units · stake   (supply ≥ burned > 0)
+                if claim * &pv.s > &burned * &pv.k {
+                    return Err((
+                        "unstake-claims-more-than-share".into(),
+                        format!("{what}: unstaking {} units gives a claim of {}; exact share is {}", show(&burned), show(claim), share(&burned, &pv.s, &pv.k).show()),
+                    ));
+                }
+                st.model.nft_bound.insert(id.clone(), share(&burned, &pv.s, &pv.k));
+                let delay_ok = *claim_epoch == pre.epoch + UNSTAKE_DELAY;
+                Ok(format!("Unstake:ok:{}{}", if claim.is_zero() { "zero-claim" } else { "claim-at-most-share" }, if delay_ok { "" } else { ":unexpected-claim-epoch" }))
+            }
+            Op::Claim(v) => {
+                let v = *v;
+                self.others_unchanged(&pre, &post, Some(v), &what)?;
+                let (pv, qv) = (&pre.v[v], &post.v[v]);
+                let (claim_epoch, amount, id) = pv.nfts.first().expect("claim op had an NFT");
+                if qv.nfts.iter().any(|n| &n.2 == id) {
+                    return Err(("claim-kept-nft".into(), format!("{what}: claim succeeded but the claim NFT is still there")));
+                }
+                let paid = &post.acct_xrd - &pre.acct_xrd;
+                if paid > *amount || paid.is_negative() || &pv.p - &qv.p != paid || pv.k != qv.k || pv.s != qv.s {
+                    return Err(("claim-pays-more-than-nft".into(), format!("{what}: claim NFT of {} paid {}; pending vault moved by {}", show(amount), show(&paid), show(&(&qv.p - &pv.p)))));
+                }
+                if let Some(b) = st.model.nft_bound.get(id) {
+                    if b.cmp_int(&paid) == std::cmp::Ordering::Less {
+                        return Err(("claim-pays-more-than-share".into(), format!("{what}: claim paid {} but the units' share at unstake time was {}", show(&paid), b.show())));
+                    }
+                }
+                st.model.nft_bound.remove(id);
+                if pre.epoch < *claim_epoch && st.live.get() {
+                    self.info("claim succeeded before the claim epoch (delay is not part of the statement)");
+                }
+                Ok(format!("Claim:ok{}", if pre.epoch < *claim_epoch { ":before-claim-epoch" } else { "" }))
+            }
+            Op::Register(v) | Op::Unregister(v) => {
+                self.others_unchanged(&pre, &post, None, &what)?;
+                st.model.registered[*v] = matches!(op, Op::Register(_));
+                Ok(format!("{name}:ok"))
+            }
+            _ => {
+                // fee / delegation flag / owner unit locking: no XRD and no unit supply may move
+                self.others_unchanged(&pre, &post, None, &what)?;
+                if post.acct_xrd != pre.acct_xrd {
+                    return Err(("admin-op-moved-xrd".into(), format!("{what}: account XRD moved")));
+                }
+                Ok(format!("{name}:ok"))
+            }
+        }
+    }
+
+    fn step_round(&self, st: &mut St, op: &Op, miss: Miss) -> Result<String, V> {
+        let pre = st.obs.clone();
+        let what = self.what(&pre, op);
+        let ts = st.sim.get_current_proposer_timestamp_ms();
+        let (round, gaps) = match miss {
+            Miss::None => (pre.round + 1, vec![]),
+            Miss::Index(i) => (pre.round + 2, vec![i]),
+        };
+        let manifest = ManifestBuilder::new_system_v1()
+            .call_method(
+                CONSENSUS_MANAGER,
+                CONSENSUS_MANAGER_NEXT_ROUND_IDENT,
+                ConsensusManagerNextRoundInput {
+                    round: Round::of(round),
+                    proposer_timestamp_ms: ts,
+                    leader_proposal_history: LeaderProposalHistory { gap_round_leaders: gaps, current_leader: 0, is_fallback: false },
+                },
+            )
+            .build();
+        let receipt = mc_core::catch(|| st.sim.execute_system_transaction(manifest, btreeset![system_execution(SystemExecution::Validator)]))
+            .map_err(|p| (format!("panic@{}", mc_core::last_panic_location()), format!("{what}: engine panicked: {p}")))?;
+        let post = observe(&mut st.sim, &self.w);
+        st.obs = post.clone();
+        st.model.rounds += 1;
+        if !is_success(&receipt) {
+            if !pre.same_but_fees(&post) || pre.rv != post.rv {
+                return Err(("failed-op-changed-state".into(), format!("{what}: the round change did not succeed but state moved")));
+            }
+            return Ok(format!("Round:{}", short_class(&receipt)));
+        }
+        if post.epoch != pre.epoch + 1 {
+            return Err(("round-without-epoch-change".into(), format!("{what}: 1 round per epoch configured, epoch went {} -> {}", pre.epoch, post.epoch)));
+        }
+        self.state_invariants(&post, &what)?;
+        let TransactionResult::Commit(c) = &receipt.result else { unreachable!() };
+        // ---- events
+        let mut minted_events = BigInt::zero();
+        let mut emission_events = BigInt::zero();
+        let mut reward_events = BigInt::zero();
+        let mut epoch_event: Option<EpochChangeEvent> = None;
+        for (id, data) in &c.application_events {
+            if st.sim.is_event_name_equal::<MintFungibleResourceEvent>(id) {
+                if let Emitter::Method(node, ModuleId::Main) = &id.0 {
+                    if node == XRD.as_node_id() {
+                        let e: MintFungibleResourceEvent = scrypto_decode(data).map_err(|e| ("event-decode".to_string(), format!("{e:?}")))?;
+                        minted_events += attos(e.amount);
+                    }
+                }
+            } else if st.sim.is_event_name_equal::<ValidatorEmissionAppliedEvent>(id) {
+                let e: ValidatorEmissionAppliedEvent = scrypto_decode(data).map_err(|e| ("event-decode".to_string(), format!("{e:?}")))?;
+                emission_events += attos(e.stake_pool_added_xrd) + attos(e.validator_fee_xrd);
+            } else if st.sim.is_event_name_equal::<ValidatorRewardAppliedEvent>(id) {
+                let e: ValidatorRewardAppliedEvent = scrypto_decode(data).map_err(|e| ("event-decode".to_string(), format!("{e:?}")))?;
+                reward_events += attos(e.amount);
+            } else if st.sim.is_event_name_equal::<EpochChangeEvent>(id) {
+                epoch_event = Some(scrypto_decode(data).map_err(|e| ("event-decode".to_string(), format!("{e:?}")))?);
+            }
+        }
+        // ---- emissions ≤ E (XRD does not record its total supply: minted = Σ XRD mint events of this
+        // transaction, cross-checked below against what really arrived in the stake vaults)
+        let minted = minted_events.clone();
+        if minted > self.w.emission || minted.is_negative() || emission_events > self.w.emission {
+            return Err((
+                "emission-exceeds-configured-amount".into(),
+                format!("{what}: epoch change minted {} XRD (emission events {}), configured emission per epoch is {}", show(&minted), show(&emission_events), show(&self.w.emission)),
+            ));
+        }
+        // ---- rewards ≤ rewards vault before
+        let rv_paid = &pre.rv - &post.rv;
+        if reward_events > pre.rv || rv_paid.is_negative() || post.rv.is_negative() || rv_paid != reward_events {
+            return Err((
+                "rewards-exceed-vault".into(),
+                format!("{what}: rewards vault held {} before, reward events add up to {}, vault now {}", show(&pre.rv), show(&reward_events), show(&post.rv)),
+            ));
+        }
+        // ---- nothing else appears: Σ stake vault increases = minted + rewards paid
+        let dv = &post.value_total() - &pre.value_total();
+        if dv != &minted + &rv_paid {
+            return Err((
+                "epoch-change-value-not-conserved".into(),
+                format!("{what}: stake vaults + pending + account grew by {} but XRD minted {} + rewards paid {}", show(&dv), show(&minted), show(&rv_paid)),
+            ));
+        }
+        if post.acct_xrd != pre.acct_xrd {
+            return Err(("epoch-change-moved-account".into(), format!("{what}: account XRD moved in an epoch change")));
+        }
+        let members: Vec<usize> = pre.active.iter().map(|x| x.0).collect();
+        let mut outsider = false;
+        for i in 0..post.k_all.len() {
+            let dk = &post.k_all[i] - &pre.k_all[i];
+            if dk.is_negative() {
+                return Err(("epoch-change-reduced-stake".into(), format!("{what}: validator {i} lost {} stake in an epoch change", show(&-dk))));
+            }
+            if dk.is_positive() && !members.contains(&i) {
+                outsider = true;
+            }
+            if i < N_ACTORS {
+                let (pv, qv) = (&pre.v[i], &post.v[i]);
+                let ds = &qv.s - &pv.s;
+                if ds.is_negative() || qv.p != pv.p || qv.acct_units != pv.acct_units {
+                    return Err(("epoch-change-touched-holdings".into(), format!("{what}: V{i}: units burned / pending vault / account units moved in an epoch change")));
+                }
+                // owner units minted for fee + rewards ≤ proportional to the XRD added
+                if pv.k.is_positive() && &ds * &pv.k > &dk * &pv.s {
+                    return Err((
+                        "epoch-change-mints-more-units-than-proportional".into(),
+                        format!("{what}: V{i}: stake grew by {} and {} units were minted; proportional would be at most {}", show(&dk), show(&ds), Rat::new(&dk * &pv.s, pv.k.clone()).show()),
+                    ));
+                }
+            }
+        }
+        if outsider && st.live.get() {
+            self.info("a validator outside the concluded epoch's active set received emission/reward (statement silent)");
+        }
+        // ---- active set
+        let Some(ev) = epoch_event else {
+            return Err(("no-epoch-change-event".into(), format!("{what}: epoch changed without EpochChangeEvent")));
+        };
+        let listed: Vec<(usize, BigInt)> = ev.validator_set.validators_by_stake_desc.iter().map(|(a, val)| (self.w.all.iter().position(|x| x == a).unwrap_or(usize::MAX), attos(val.stake))).collect();
+        if listed != post.active {
+            return Err(("event-set-ne-stored-set".into(), format!("{what}: EpochChangeEvent lists {:?}, stored set is {:?}", listed, post.active)));
+        }
+        if listed.len() > MAX_VALIDATORS as usize {
+            return Err(("active-set-too-large".into(), format!("{what}: active set has {} members, maximum is {MAX_VALIDATORS}", listed.len())));
+        }
+        let shown = |l: &Vec<(usize, BigInt)>| l.iter().map(|(i, s)| format!("#{i}:{}", show(s))).collect::<Vec<_>>().join(", ");
+        for (pos, (i, s)) in listed.iter().enumerate() {
+            if *i == usize::MAX || !st.model.registered[*i] || !post.k_all[*i].is_positive() {
+                return Err(("active-set-member-not-eligible".into(), format!("{what}: active set [{}] contains validator #{i} which is unregistered or has no stake", shown(&listed))));
+            }
+            if *s != post.k_all[*i] {
+                return Err(("active-set-stake-ne-real-stake".into(), format!("{what}: active set lists #{i} with stake {}, its stake vault holds {}", show(s), show(&post.k_all[*i]))));
+            }
+            if pos > 0 && listed[pos - 1].1 < *s {
+                return Err(("active-set-not-ordered".into(), format!("{what}: active set [{}] is not ordered by stake", shown(&listed))));
+            }
+            if listed[..pos].iter().any(|x| x.0 == *i) {
+                return Err(("active-set-duplicate".into(), format!("{what}: active set [{}] lists a validator twice", shown(&listed))));
+            }
+        }
+        let mut eligible: Vec<(BigInt, usize)> = (0..post.k_all.len()).filter(|i| st.model.registered[*i] && post.k_all[*i].is_positive()).map(|i| (post.k_all[i].clone(), i)).collect();
+        eligible.sort_by(|a, b| b.0.cmp(&a.0));
+        let expect: Vec<BigInt> = eligible.iter().take(MAX_VALIDATORS as usize).map(|x| x.0.clone()).collect();
+        let got: Vec<BigInt> = listed.iter().map(|x| x.1.clone()).collect();
+        let mut set_label = "top-k";
+        if got != expect {
+            // documented trade-off of the 100k-XRD bucketed index: only the first 12 entries are read
+            let kth = expect.last().cloned().unwrap_or_default();
+            let crowd = eligible.iter().filter(|x| bucket(&x.0) >= bucket(&kth)).count();
+            if crowd > INDEX_READ {
+                set_label = "bucket-trade-off";
+                if st.live.get() {
+                    self.info("active set differs from exact top-k while more validators than the index read size share the cut-off bucket (documented trade-off)");
+                }
+            } else {
+                let exp: Vec<String> = eligible.iter().take(MAX_VALIDATORS as usize).map(|(s, i)| format!("#{i}:{}", show(s))).collect();
+                return Err((
+                    "active-set-not-top-k".into(),
+                    format!("{what}: new active set is [{}], the top {MAX_VALIDATORS} registered validators by stake are [{}]", shown(&listed), exp.join(", ")),
+                ));
+            }
+        }
+        let emis = if minted.is_zero() { "no-emission" } else if minted == self.w.emission { "emission=E" } else { "emission<E" };
+        let rew = if rv_paid.is_zero() { "no-rewards" } else { "rewards" };
+        Ok(format!("Round:ok:{emis}:{rew}:{set_label}:set-size-{}", listed.len()))
+    }
+}
+
+impl Machine for StakeMachine {
+    type Op = Op;
+    type St = St;
+
+    fn init(&self) -> St {
+        let mut sim = sim_from(&self.root);
+        let obs = observe(&mut sim, &self.w);
+        St { sim, obs, model: self.root_model.clone(), live: Cell::new(false) }
+    }
+
+    fn ops(&self, st: &St, _depth: usize) -> Vec<Op> {
+        st.live.set(true);
+        self.alphabet.iter().filter(|op| !matches!(op, Op::Round(_)) || st.model.rounds < self.max_rounds).cloned().collect()
+    }
+
+    fn fork(&self, st: &St) -> Option<St> {
+        Some(St { sim: sim_from(&st.sim.create_snapshot()), obs: st.obs.clone(), model: st.model.clone(), live: Cell::new(st.live.get()) })
+    }
+
+    fn step(&self, st: &mut St, op: &Op) -> Result<String, V> {
+        match op {
+            Op::Round(m) => self.step_round(st, op, *m),
+            _ => self.step_user(st, op),
+        }
+    }
+
+    /// Everything staking observes, exactly: epoch, per actor registration / delegation flag / fee (+ pending
+    /// change) / stake / unit supply / pending-withdraw / locked / unlocking / account units / outstanding claims
+    /// (epoch, amount), all 13 stakes, the active set. Node ids (claim NFT ids) and the fee-dependent rewards
+    /// vault and XRD supply are left out: they differ between histories by fee dust only, which reaches stakes
+    /// as part of the next reward, where it is visible again.
+    fn fingerprint(&self, st: &St) -> Vec<u8> {
+        let o = &st.obs;
+        let mut s = format!("e{};r{};x{};n{};", o.epoch, o.round, show(&o.acct_xrd), st.model.rounds);
+        for (i, v) in o.v.iter().enumerate() {
+            s.push_str(&format!(
+                "V{i}:{}{}{};{};{:?};{};{};{};{};{};{:?};{};{};",
+                st.model.registered[i] as u8,
+                v.registered_flag as u8,
+                v.accepts as u8,
+                v.fee,
+                v.fee_req,
+                show(&v.k),
+                show(&v.s),
+                show(&v.p),
+                show(&v.l),
+                show(&v.u),
+                v.pending_unlock,
+                v.already_unlocked,
+                show(&v.acct_units)
+            ));
+            for n in &v.nfts {
+                s.push_str(&format!("n{}:{};", n.0, show(&n.1)));
+            }
+        }
+        s.push_str(&format!("K{};A{:?}", show_all(&o.k_all), o.active.iter().map(|(i, x)| (*i, show(x))).collect::<Vec<_>>()));
+        mc_core::fp128(s.as_bytes())
+    }
+}
+
+// ------------------------------------------------------------------------------------------------
+// world
+// ------------------------------------------------------------------------------------------------
+
+fn key(i: u64) -> Secp256k1PublicKey {
+    Secp256k1PrivateKey::from_u64(i).unwrap().public_key()
+}
+
+pub fn build_world() -> (Sim, World) {
+    let owner_pk = key(77);
+    let acct_addr = ComponentAddress::preallocated_account_from_public_key(&owner_pk);
+    let n = N_ACTORS + N_FILLERS;
+    let stakes: Vec<Decimal> = (0..n)
+        .map(|i| match i {
+            0 => d("301001"),
+            1 => d("300000"),
+            2 => d("299999.5"),
+            i if i < N_ACTORS + 5 => d("1000"),
+            _ => d("2000"),
+        })
+        .collect();
+    let validators: Vec<GenesisValidator> = (0..n)
+        .map(|i| GenesisValidator {
+            key: key(i as u64 + 1),
+            accept_delegated_stake: true,
+            is_registered: true,
+            fee_factor: d("0.05"),
+            metadata: vec![],
+            owner: acct_addr,
+        })
+        .collect();
+    let allocations: Vec<(Secp256k1PublicKey, Vec<GenesisStakeAllocation>)> = (0..n).map(|i| (key(i as u64 + 1), vec![GenesisStakeAllocation { account_index: 0, xrd_amount: stakes[i] }])).collect();
+    let config = ConsensusManagerConfig {
+        max_validators: MAX_VALIDATORS,
+        epoch_change_condition: EpochChangeCondition { min_round_count: 1, max_round_count: 1, target_duration_millis: 0 },
+        num_unstake_epochs: UNSTAKE_DELAY,
+        total_emission_xrd_per_epoch: d(EMISSION),
+        min_validator_reliability: d("0.4"),
+        num_owner_stake_units_unlock_epochs: 2,
+        num_fee_increase_delay_epochs: 2,
+        validator_creation_usd_cost: d("100"),
+    };
+    let genesis = BabylonSettings {
+        genesis_data_chunks: vec![
+            GenesisDataChunk::Validators(validators),
+            GenesisDataChunk::Stakes { accounts: vec![acct_addr], allocations },
+            GenesisDataChunk::XrdBalances(vec![(acct_addr, d("100000000"))]),
+        ],
+        genesis_epoch: Epoch::of(1),
+        consensus_manager_config: config,
+        initial_time_ms: 1,
+        initial_current_leader: Some(0),
+        faucet_supply: *DEFAULT_TESTING_FAUCET_SUPPLY,
+    };
+    let sim = new_sim_genesis(genesis);
+    let mut all = vec![];
+    let mut unit_res = vec![];
+    let mut claim_res = vec![];
+    // validator addresses by key: actors are the owner badge ids in the account; resolve through the substates
+    let mut by_key: BTreeMap<Vec<u8>, (ComponentAddress, ResourceAddress, ResourceAddress)> = BTreeMap::new();
+    for node in all_nodes(sim.substate_db()) {
+        if node.entity_type() == Some(EntityType::GlobalValidator) {
+            let addr = ComponentAddress::new_or_panic(node.0);
+            let sub = sim.get_validator_info(addr);
+            by_key.insert(sub.key.0.to_vec(), (addr, sub.stake_unit_resource, sub.claim_nft));
+        }
+    }
+    for i in 0..n {
+        let (a, u, c) = by_key.get(&key(i as u64 + 1).0.to_vec()).cloned().unwrap_or_else(|| mc_core::machinery_error("genesis validator not found"));
+        all.push(a);
+        unit_res.push(u);
+        claim_res.push(c);
+    }
+    let acct = Acct { pk: owner_pk, addr: acct_addr, sig: NonFungibleGlobalId::from_public_key(&owner_pk) };
+    (sim, World { acct, all, unit_res, claim_res, emission: attos(d(EMISSION)) })
+}
+
+pub fn alphabet(core_only: bool) -> Vec<Op> {
+    let one = d("1");
+    let atto7 = d("0.000000000000000007");
+    let mil = d("1000000");
+    if core_only {
+        return vec![
+            Op::Stake(0, one),
+            Op::Stake(0, atto7),
+            Op::Stake(2, one),
+            Op::Unstake(0, Units::Half),
+            Op::Unstake(0, Units::All),
+            Op::Unstake(1, Units::All),
+            Op::Claim(0),
+            Op::Unregister(0),
+            Op::UpdateFee(0, one),
+            Op::Round(Miss::None),
+            Op::Round(Miss::Index(0)),
+        ];
+    }
+    vec![
+        Op::Stake(0, one),
+        Op::Stake(0, atto7),
+        Op::Stake(0, mil),
+        Op::Stake(1, one),
+        Op::Stake(2, one),
+        Op::StakeAsOwner(0, d("3")),
+        Op::Unstake(0, Units::Smallest),
+        Op::Unstake(0, Units::Half),
+        Op::Unstake(0, Units::All),
+        Op::Unstake(1, Units::All),
+        Op::Claim(0),
+        Op::Claim(1),
+        Op::Unregister(0),
+        Op::Register(0),
+        Op::Unregister(2),
+        Op::UpdateFee(0, Decimal::ZERO),
+        Op::UpdateFee(0, d("0.05")),
+        Op::UpdateFee(0, one),
+        Op::AcceptDelegated(0, false),
+        Op::AcceptDelegated(0, true),
+        Op::LockOwnerUnits(0, one),
+        Op::StartUnlock(0, one),
+        Op::FinishUnlock(0),
+        Op::Round(Miss::None),
+        Op::Round(Miss::Index(0)),
+        Op::Round(Miss::Index(1)),
+    ]
+}
+
+fn machine(alphabet_core: bool, max_rounds: usize) -> StakeMachine {
+    let (sim, w) = build_world();
+    // prefix, executed through the same oracle: unstake 1000 units of V0, then one epoch change
+    let boot = StakeMachine {
+        root: sim.create_snapshot(),
+        root_model: Model { registered: vec![true; N_ACTORS + N_FILLERS], nft_bound: BTreeMap::new(), rounds: 0 },
+        w,
+        alphabet: alphabet(alphabet_core),
+        max_rounds,
+        infos: Mutex::new(BTreeMap::new()),
+        probes: AtomicU64::new(0),
+    };
+    let mut st = boot.init();
+    if let Err(e) = boot.state_invariants(&st.obs, "genesis") {
+        mc_core::machinery_error(&format!("genesis state does not satisfy the harness invariants: {e:?}"));
+    }
+    for op in [Op::Unstake(0, Units::Thousand), Op::Round(Miss::None)] {
+        match boot.step(&mut st, &op) {
+            Ok(c) if c.contains(":ok") => {}
+            other => mc_core::machinery_error(&format!("prefix operation {op:?} did not succeed: {other:?}")),
+        }
+    }
+    let mut model = st.model.clone();
+    model.rounds = 0;
+    StakeMachine { root: st.sim.create_snapshot(), root_model: model, ..boot }
+}
+
+fn replay_history(m: &StakeMachine, history: &[String]) -> Vec<Result<String, V>> {
+    let all = alphabet(false);
+    let mut st = m.init();
+    st.live.set(true);
+    let mut out = vec![];
+    for h in history {
+        let Some(op) = all.iter().find(|o| &format!("{o:?}") == h) else {
+            out.push(Err(("replay".to_string(), format!("operation {h} is not in the alphabet"))));
+            break;
+        };
+        let r = m.step(&mut st, op);
+        let stop = r.is_err();
+        out.push(r);
+        if stop {
+            break;
+        }
+    }
+    out
+}
+
+pub fn run(ctx: Ctx) -> ! {
+    if let Some(case) = ctx.read_replay_case() {
+        let hist: Vec<String> = case.get("history").and_then(|h| h.as_array()).map(|a| a.iter().filter_map(|x| x.as_str().map(|s| s.to_string())).collect()).unwrap_or_default();
+        let m = machine(false, 99);
+        for (h, r) in hist.iter().zip(replay_history(&m, &hist)) {
+            match r {
+                Ok(c) => {
+                    println!("  {h} -> {c}");
+                    ctx.class(&c, 1);
+                }
+                Err((k, w)) => {
+                    println!("  {h} -> VIOLATION {k}: {w}");
+                    ctx.violation(k, w, case.clone());
+                }
+            }
+        }
+        ctx.finish(Level::ModelChecking, "replay of one recorded history", 0, false, serde_json::Map::new(), &[]);
+    }
+
+    // (full-alphabet depth, core-alphabet depth, wall cap per exploration)
+    let (d_full, d_core, cap) = if ctx.quick() { (3usize, 4usize, 25.0) } else { (4, 6, 540.0) };
+    let mut total = BfsStats::default();
+    let mut parts = serde_json::Map::new();
+    let mut probes = 0;
+    let mut alph = serde_json::Map::new();
+    let mut capped = vec![];
+    for (name, core, depth) in [("full-alphabet", false, d_full), ("core-alphabet", true, d_core)] {
+        let m = machine(core, 3);
+        alph.insert(name.to_string(), json!(m.alphabet.iter().map(|o| format!("{o:?}")).collect::<Vec<_>>()));
+        let s = bfs(&ctx, &m, name, depth, 3_000_000, cap);
+        if s.capped {
+            capped.push(format!("{name} (completed depth {})", s.depth_completed));
+        }
+        parts.insert(
+            name.to_string(),
+            json!({"depth_bound": depth, "depth_completed": s.depth_completed, "states": s.states, "transitions": s.transitions, "per_depth_new_states": s.per_depth_states, "alphabet": m.alphabet.len(), "capped": s.capped}),
+        );
+        total.add(&s);
+        probes += m.probes.load(Ordering::Relaxed);
+        for (k, v) in m.infos.lock().unwrap().iter() {
+            ctx.info(k, *v);
+        }
+    }
+    let mut cov = total.coverage();
+    cov.insert("explorations".into(), serde_json::Value::Object(parts));
+    cov.insert("alphabets".into(), serde_json::Value::Object(alph));
+    cov.insert("stake_then_unstake_probes".into(), json!(probes));
+    cov.insert(
+        "genesis".into(),
+        json!({"validators": N_ACTORS + N_FILLERS, "actors": N_ACTORS, "max_validators": MAX_VALIDATORS, "index_entries_read": INDEX_READ, "rounds_per_epoch": 1, "unstake_delay_epochs": UNSTAKE_DELAY, "emission_per_epoch": EMISSION, "min_reliability": "0.4", "max_epoch_changes_per_history": 3, "prefix": ["Unstake(0, Thousand)", "Round(None)"]}),
+    );
+    if !capped.is_empty() {
+        cov.insert("capped".into(), json!(capped));
+    }
+    let exhaustive = !total.capped;
+    ctx.finish(
+        Level::ModelChecking,
+        "breadth-first over all histories of validator operations (stake / stake as owner / unstake / claim / register / unregister / fee / delegation flag / owner unit lock-unlock / round change with missed-proposal patterns) up to the depth bound with at most 3 epoch changes, once over the full alphabet and once deeper over a core alphabet, every transition executed on the real engine from a 13-validator genesis; exact BigInt-rational oracle on every transition plus a stake-then-unstake probe on a fork after every stake; a state is non-trivial when its fingerprint (all stakes, unit supplies, pending amounts, claims, flags, active set, epoch) is new",
+        total.states,
+        exhaustive,
+        cov,
+        &[
+            "one account owns all validators and is the only staker; fees are paid by the faucet",
+            "states are merged on the exact staking state; the rewards vault balance and XRD supply (fee dependent) are not part of the fingerprint",
+            "registration = the owner's successful register/unregister calls (reference), not the engine's flag",
+            "top-k is demanded unless more validators than the engine's index read size (12) share the cut-off 100k-XRD bucket (documented trade-off, informational)",
+            "claim delay, emission recipients and get_redemption_value are not part of the statement (informational)",
+        ],
+    )
 }
